@@ -15,6 +15,8 @@ import OFV.Proofs.C11Layers
 import OFV.Proofs.C11Step
 import OFV.Proofs.C11Sweep
 import OFV.Proofs.C11Left
+import OFV.Proofs.C11Unit
+import OFV.Proofs.C11Diag
 
 namespace OFV.C11
 open OFV OFV.Model.C11
@@ -480,6 +482,39 @@ example : StepExactL (1/100000000) [[0, ⟨3/5, 0⟩, ⟨4/5, 0⟩], [0, ⟨-4/5
 example : (colSweep (1/100000000) (givensLayer 1 2) false (List.range (givensDepth 2))
     [[⟨3/5, 0⟩, ⟨4/5, 0⟩]]).toOption.map (fun r => r.2) = some [[1, 0]] ∧ givensLeft 1 2 = [] := by
   decide +kernel
+
+/-- **`givens_decomposition_square` diagonalises every unitary (exact regime).**
+Let `Q` be `n × n` with orthonormal rows.  Whenever the Model's sweep returns and the run is in the exact regime,
+the final matrix `M' = Q G₁† ⋯ G_k†` (each step is `givens_rotate(.., 'col')` with the matrix whose parameters
+`(θ, φ)` are recorded — `givens_matrix_elements_sound` shows they reproduce it) is **diagonal with unit-modulus
+diagonal**: `M'[i,j] = 0` for `i ≠ j`, `|M'[j,j]|² = 1`, and all inner products of rows are those of `Q`.
+The returned `diagonal` is `diag M'`, so `Q = D U` with `U = G_k ⋯ G₁` — the statement of the docstring.
+(What is not formalised is only the bookkeeping that composing the recorded rotations gives the matrix product `U`;
+the reconstruction oracle checks that product numerically on the real code.) -/
+theorem square_decomposition_diagonalises (tol : Rat) (htol : 0 < tol) (ai : Bool) (n : Nat) (Q : Mat)
+    (ls : List (List Rot)) (M' : Mat) (hQ : Rect Q n n) (horth : RowsOrthonormal Q n n)
+    (h : colSweep tol (squareLayer n) ai (List.range (squareDepth n)) Q = .ok (ls, M'))
+    (hex : SweepExact tol ai (squareLayer n) (List.range (squareDepth n)) Q) :
+    (∀ i j, i < n → j < n → i ≠ j → M'.get i j = 0) ∧
+    (∀ j, j < n → (M'.get j j).re * (M'.get j j).re + (M'.get j j).im * (M'.get j j).im = 1) ∧
+    RowsOrthonormal M' n n := by
+  obtain ⟨_, hup⟩ := square_sweep_annihilates_upper_triangle tol htol ai n Q ls M' hQ h hex
+  have hval : ∀ k, ∀ p ∈ squareLayer n k, p.1 < n ∧ 1 ≤ p.2 ∧ p.2 < n := by
+    intro k p hp
+    obtain ⟨i, j⟩ := p
+    rw [mem_squareLayer] at hp
+    simp only; omega
+  obtain ⟨_, hg⟩ := colSweep_gram tol htol ai n n (squareLayer n) hval _ Q ls M' h hex hQ
+  have ho' := horth.of_sameGram hg
+  have hd := diagonal_of_triangular_orthonormal M' n n (Nat.le_refl n) (fun i j _ hij hj => hup i j hij hj) ho'
+  exact ⟨fun i j hi hj hij => (hd j hj).1 i hi hij, fun j hj => (hd j hj).2, ho'⟩
+
+-- non-vacuity: the 3-4-5 rotation has orthonormal rows
+example : RowsOrthonormal [[⟨3/5, 0⟩, ⟨4/5, 0⟩], [⟨-4/5, 0⟩, ⟨3/5, 0⟩]] 2 2 := by
+  intro i i' hi hi'
+  have h1 : i = 0 ∨ i = 1 := by omega
+  have h2 : i' = 0 ∨ i' = 1 := by omega
+  rcases h1 with rfl | rfl <;> rcases h2 with rfl | rfl <;> decide +kernel
 
 -- non-vacuity: on the 3-4-5 rotation the sweep returns and the exact-regime conditions of its only step hold
 example : (colSweep (1/100000000) (squareLayer 2) false (List.range (squareDepth 2))
